@@ -30,6 +30,7 @@ def body(r):
         worlds.append(w)
     swarm.run_swarm(r, PROP, worlds, oracles=ORACLES)
     return r.finish(
+        minimise=swarm.make_minimiser(PROP, (), ORACLES),
         rule=("seeded swarm of runs of both samplers ending in save_results with extension in {hdf5, h5, json}, "
               "including resumed runs (non-empty checkpoint_iterations), runs cut by the cap (final_p_value None), "
               "INS None entries, non-finite history values; constructor kwargs include non-serialisable values "
